@@ -96,7 +96,7 @@ func TestC07(t *testing.T) {
 		makeCVA(v, sender, ov, start, end, extra)
 		hist := []string{fmt.Sprintf("sender ov=%s start=%d end=%d now=%d extra=%s bank transfers switched off for %q", ov, start, end, nowS, extra, offDenom)}
 
-		delegated := false
+		delegated, stakingFollowUp := false, false
 		if rapid.IntRange(0, 2).Draw(t, "delegate") == 0 {
 			bal := v.Bal(sender).AmountOf(Denom)
 			amt := randBelow(t, "delAmt", bal)
@@ -107,6 +107,23 @@ func TestC07(t *testing.T) {
 					dv := v.CVA(sender).DelegatedVesting
 					if dv != nil && !dv.IsZero() {
 						delegated = true
+					}
+					// what happens to a delegation afterwards: part of it is unbonded (and the unbonding period may pass),
+					// or the validator is slashed
+					switch rapid.IntRange(0, 5).Draw(t, "afterDelegation") {
+					case 1, 2:
+						u := v.Undelegate(sender, randBelow(t, "undelAmt", amt).AddRaw(1))
+						hist = append(hist, fmt.Sprintf("undelegate ok=%v", u.OK()))
+						if rapid.Bool().Draw(t, "unbondingCompletes") {
+							v.CompleteUnbondings()
+							hist = append(hist, fmt.Sprintf("unbonding period over, now=%d", nsTime(v.NowNs).Unix()))
+						}
+						stakingFollowUp = true
+					case 3:
+						f := sdk.NewDecWithPrec(int64(rapid.IntRange(1, 50).Draw(t, "slashPercent")), 2)
+						v.SlashValidator(f)
+						hist = append(hist, fmt.Sprintf("validator slashed by %s", f))
+						stakingFollowUp = true
 					}
 				}
 			}
@@ -326,6 +343,9 @@ func TestC07(t *testing.T) {
 		}
 		if delegated {
 			classes["delegated_vesting"] = true
+		}
+		if stakingFollowUp {
+			classes["delegation_partly_unbonded_or_validator_slashed"] = true
 		}
 		if num == -1 {
 			classes["start_in_future"] = true
